@@ -179,6 +179,28 @@ def listings(ctx):
         w = impl.call(bse.filter_basis_sets, **kw)
         want = ('ok', '\n'.join(v['display_name'] for v in w[1].values())) if w[0] == 'ok' else w
         expect(ctx, argv, want, 'list-basis-sets', 'list-basis-sets', {'kind': 'cli', 'argv': argv})
+    # another data directory through -d / --data-dir, in the same process as commands on the default one (before and after)
+    fake = os.path.normpath(os.path.join(store.DATA, '..', 'tests', 'fakedata'))
+    if os.path.isdir(fake):
+        run_cli(['get-family', 'sto-3g'])
+        fmd = bse.get_metadata(fake)
+        for k, ent in fmd.items():
+            for dflag in ('-d', '--data-dir'):
+                argv = [dflag, fake, 'get-basis', ent['display_name'], 'nwchem']
+                expect(ctx, argv, impl.call(bse.get_basis, k, fmt='nwchem', data_dir=fake), 'get-basis', 'get-basis:data-dir', {'kind': 'cli', 'argv': argv})
+            argv = ['-d', fake, 'get-refs', k, 'bib']
+            expect(ctx, argv, impl.call(bse.get_references, k, fmt='bib', data_dir=fake), 'get-refs', 'get-refs:data-dir', {'kind': 'cli', 'argv': argv})
+            argv = ['-d', fake, 'get-notes', k]
+            expect(ctx, argv, impl.call(bse.get_basis_notes, k, fake), 'get-notes', 'get-notes:data-dir', {'kind': 'cli', 'argv': argv})
+        argv = ['-d', fake, 'list-basis-sets', '-n']
+        expect(ctx, argv, ('ok', '\n'.join(v['display_name'] for v in fmd.values())), 'list-basis-sets', 'list-basis-sets:data-dir', {'kind': 'cli', 'argv': argv})
+        # ... and the default directory again afterwards
+        expect(ctx, ['get-basis', 'sto-3g', 'nwchem', '--elements', '1'], impl.call(bse.get_basis, 'sto-3g', fmt='nwchem', elements='1'), 'get-basis', 'get-basis:after-data-dir',
+               {'kind': 'cli', 'argv': ['get-basis', 'sto-3g', 'nwchem']})
+        got = run_cli(['get-basis', next(iter(fmd.values()))['display_name'], 'nwchem'])
+        ctx.case(('fake-name-on-default-dir', ), True, 'invalid')
+        if got[0] == 'ok' and next(iter(fmd)) not in md:
+            ctx.violation('cli.invalid', 'accepted:other-directory', 'a name of another data directory is accepted on the default one', {'kind': 'cli', 'argv': ['get-basis', 'fake']})
     expect(ctx, ['list-families'], ('ok', '\n'.join(bse.get_families())), 'list-families', 'list-families', {'kind': 'cli', 'argv': ['list-families']})
     expect(ctx, ['list-roles', '-n'], ('ok', '\n'.join(bse.get_roles().keys())), 'list-roles', 'list-roles', {'kind': 'cli', 'argv': ['list-roles', '-n']})
     expect(ctx, ['list-ref-formats', '-n'], ('ok', '\n'.join(bse.get_reference_formats().keys())), 'list-ref-formats', 'list-ref-formats', {'kind': 'cli', 'argv': []})
@@ -368,7 +390,7 @@ def run(ctx):
     else:
         pairs = [(n, md[n]['latest_version']) for n in store.sample_names(ctx.rng, 26, md)]
         # names whose index key is not the lower-cased name (* and / are escaped in keys)
-        pairs += [(n, md[n]['latest_version']) for n in ('6-31g_st_', '6-311+g_st__st_', 'cc-pvdz(fi_sl_sf_sl_fw)') if n in md]
+        pairs += [(n, md[n]['latest_version']) for n in ('6-31g_st_', '6-311+g_st__st_', 'cc-pvdz(fi_sl_sf_sl_fw)', 'cc-pvdz-f12') if n in md]      # the last one: a role naming two basis sets
         multi = [k for k, v in md.items() if len(v['versions']) > 1]
         pairs += [(k, sorted(md[k]['versions'])[0]) for k in ctx.rng.sample(multi, 4)]
     store.parallel(ctx, work, pairs)
